@@ -435,3 +435,17 @@ VARIANTS += [
     S("C09", "equations-local-renamed", RUN, "            sc.result = sc.sd_simulation.start(output=[\"frame\"], start=step, until=step,equations=equations)", "            frame = sc.sd_simulation.start(output=[\"frame\"], start=step, until=step,equations=equations)\n            sc.result = frame"),
     S("C11", "handler-table-local-renamed", AGENT, "            handlers = self.eventHandlers[self.state]", "            handlers = self.eventHandlers[self.state]\n            table = handlers"),
 ]
+
+VARIANTS += [
+    S("C13", "count-through-cell-alias", DC, "            self.agent_statistics[time][agent.agent_type][agent.state][\"count\"] += 1\n",
+      "            cell = self.agent_statistics[time][agent.agent_type][agent.state]\n            cell[\"count\"] += 1\n"),
+    S("C15", "gate-early-return-when-unconfigured", SRV,
+      "            if self._bearer_token is not None:\n                token = None\n                if \"Authorization\" in request.headers:\n                    # accept exactly \"Bearer <token>\": scheme and nothing after the credential\n                    parts = request.headers[\"Authorization\"].split(\" \")\n                    if len(parts) == 2 and parts[0] == \"Bearer\":\n                        token = parts[1]\n\n                if token is None:\n                    resp = make_response('{\"Unauthorized\": \"Authentication Token is missing!\"}', 401)\n                    return resp\n                \n                if token != self._bearer_token:\n                    resp = make_response('{\"Unauthorized\": \"Authentication Token is wrong!\"}', 401)\n                    return resp\n\n            return f(self, *args, **kwargs)",
+      "            if self._bearer_token is None:\n                return f(self, *args, **kwargs)\n            token = None\n            if \"Authorization\" in request.headers:\n                parts = request.headers[\"Authorization\"].split(\" \")\n                if len(parts) == 2 and parts[0] == \"Bearer\":\n                    token = parts[1]\n            if token is None:\n                return make_response('{\"Unauthorized\": \"Authentication Token is missing!\"}', 401)\n            if token != self._bearer_token:\n                return make_response('{\"Unauthorized\": \"Authentication Token is wrong!\"}', 401)\n            return f(self, *args, **kwargs)"),
+    S("C17", "sweep-over-list-copy", SRV, "        for key in tuple(self._instances.keys()): # we're iterating over a copy", "        for key in list(self._instances): # we're iterating over a copy"),
+]
+
+VARIANTS += [
+    F("C03", "delay-offset-not-a-unit", PYG, "    tDelayed = re.sub(clean, r'\\1( t - (' + str(offset) + r') )\\2', input)", "    tDelayed = re.sub(clean, r'\\1( t - ' + str(offset) + r' )\\2', input)", "SHIFT/delay"),
+    F("C03", "init-reads-stop-time", PYG, "'init': lambda *args: parseExpression(args).replace(\", t\", \", self.starttime\"),", "'init': lambda *args: parseExpression(args).replace(\", t\", \", self.stoptime\"),", "SHIFT/init"),
+]
